@@ -374,6 +374,7 @@ func exec(r *ev.Run, h []event) (string, string, *seqx.Failure) {
 
 func main() {
 	r := ev.New("C30", "model_checking")
+	concurrentPart(r) // E3 part: probes concurrent with reports (concurrent.go)
 	timeouts := []time.Duration{400 * time.Millisecond, 500 * time.Millisecond, time.Second, 1250 * time.Millisecond}
 	var zero []event // events that take no time
 	for _, s := range subsystems {
